@@ -17,7 +17,7 @@ var poolSyntax = []string{"- x", "a-b", "* y", "#h", " x", "x ", "  ", "+", "-",
 	"a  b", "-x", "# h", "a#", "   lead3", "trail3   ", "\t", "-- a", "* * *", "1. a", "> q", "[x](y)", "`c`", "100%", "%s %d", "%[1]q"}
 
 var poolUnicode = []string{"日本語", "é", "é", "‮RTL", "a\u0085b", "a b", "\ufeffb", "😀", "ß", "Ω≈ç√", " ", "a　b",
-	"ｆｕｌｌ", "́", "​", "한글", "🇯🇵"}
+	"ｆｕｌｌ", "́", "​", "한글", "🇯🇵", "a\ufffdb", "\ufffd", "a\ufeff"}
 
 var poolInvalidUTF8 = []string{"\xff", "a\xc3", "\xed\xa0\x80", "\xc0\xaf", "ok\xfe\xffok", "\xf8\x88\x80\x80\x80"}
 
@@ -34,7 +34,9 @@ var poolEncoding = []string{`"`, `a"b`, `'`, `a: b`, `#c`, `a #c`, `\`, `a\nb`, 
 	"\u0085", " ", " ", "\ufeff", "é", "日本", `a, b`, `k=v`, `[[t]]`, `yes`, `No`, `on`, `0o17`, `.inf`, `2001-01-01`, `: x`, `x:`, `"q" 'r'`,
 	` lead`, `trail `, `A`, `\x41`, "`", `$x`, `a\`, `{{`, `=`, `a = "b"`, "\x1b[31m", "😀", `a'b"c`,
 	// texts that look like the escape sequences encoders emit (an encoder that post-processes its output trips over them)
-	`C:\u003cdir`, `\u0026`, `\u003e`, `\u2028`, `\"`, `\\`, `\/`, `\x3c`, `&amp;`, `&lt;b&gt;`, `%3C`, `\U0001F600`, `\t`, `\r\n`, `\0`}
+	`C:\u003cdir`, `\u0026`, `\u003e`, `\u2028`, `\"`, `\\`, `\/`, `\x3c`, `&amp;`, `&lt;b&gt;`, `%3C`, `\U0001F600`, `\t`, `\r\n`, `\0`,
+	// names wrapped in the colour sequences a terminal tool emits (green, bold cyan, red): they are part of the name
+	"\x1b[32mok\x1b[0m", "\x1b[1;96mdir\x1b[22;0m", "\x1b[31mred\x1b[0m", "lib\x1b[31mrary", "\x1b[0m", "a\ufffdb", "\ufffd"}
 
 // names whose text spells the path of another node ("a/a" beside a > a): implementations that key nodes by a joined path
 // confuse them
